@@ -5,27 +5,37 @@ Oracles (all independent of biotite's own tables):
 
 * MOL: the molecule read back has the same elements (upper-cased) in the same
   order, coordinates within half a unit of the 4th decimal plus one float32
-  ulp, the same charges and the same *typed bond set* after replacing the bond
-  types the CTAB cannot express by the documented ``default_bond_type``.
-  Every line of a written V2000 CTAB is matched against the fixed-column
-  layout of the CTfile specification (counts line, atom line incl. the charge
-  code of the spec table, bond line, ``M  CHG`` line with at most 8 entries).
-  V2000 requested for >= 1000 atoms or bonds must raise ValueError; without a
-  requested version V3000 has to be selected.  A coordinate that needs more
-  than 10 columns must raise (or select V3000) - never a shifted column.
+  ulp, the same charges and the same *typed bond set*; a bond type without a
+  CTAB counterpart in the CTfile table used here (QUADRUPLE, AROMATIC_TRIPLE,
+  COORDINATION) may come back as the documented ``default_bond_type`` or as
+  itself (a target that learns to express it).
+  Every line of a written V2000 CTAB is matched against the fixed *column
+  positions* of the CTfile specification (counts line, coordinates, symbol,
+  charge code, bond integers, ``M  CHG`` line with at most 8 entries); the
+  content of fields the property does not talk about (mass difference, stereo,
+  valence ..., other ``M  xxx`` property lines) is free.  Charges must be
+  recoverable from the text: all listed in ``M  CHG``, or - without any
+  ``M  CHG`` line - all encoded in the atom block.
+  V2000 requested for >= 1000 atoms or bonds must raise (any exception);
+  without a requested version V3000 has to be selected.  A coordinate that
+  needs more than 10 columns must raise (any exception) or select V3000 -
+  never a shifted column.
   Two "reading" clauses look at the written text from the other side:
-  the V2000 atom block charge code alone (``M  CHG`` lines removed) gives the
-  charges in -3..3, and a written V3000 CTAB whose atom indices are renumbered
-  (allowed by the specification) is the same molecule.
-* SDF: names and order of the records, every header field, metadata as an
-  ordered list of (key parts, value) and the molecule of every record are equal
-  after write/read.
+  the V2000 atom block charge codes alone (``M  CHG`` lines removed) are read
+  by the spec table, and a written V3000 CTAB whose atom indices are renumbered
+  (allowed by the specification) is the same molecule.  The V3000 text is only
+  parsed tolerantly (free format); a layout that is not recognised is labelled
+  and the renumbered read is skipped.
+* SDF: names and order of the records, every header field, metadata as a
+  mapping (key parts -> value; a changed order is labelled, not failed) and the
+  molecule of every record are equal after write/read.
 * RDKit: ``from_mol(to_mol(x), add_hydrogen=False)``: same atom order,
   elements, charges, residue annotations, coordinates bit-identical (float32
   -> double -> float32), one conformer per model with IDs 0..m-1, bond types
   exact except: COORDINATION is SINGLE unless ``use_dative_bonds`` (documented),
   aromatic types come back as *some* aromatic type (the kekule order is
-  RDKit's choice), ``kekulize=True`` removes aromaticity as documented.
+  RDKit's choice), ``kekulize=True`` removes aromaticity as documented
+  (AROMATIC_X -> X; order-less AROMATIC -> any non-aromatic type).
 """
 
 import io
@@ -42,8 +52,8 @@ from vlib import Enum, Outcome, Sub, findings
 
 PROPERTY = "C18"
 RULE = (
-    "molecules with explicit atoms (1..60, thorough more) or seeded bulk molecules around the 999/1000 "
-    "limits; non-trivial = >= 3 different bond types, or a charge beyond +-3, or >= 1000 atoms/bonds; "
+    "molecules with explicit atoms (1..30), seeded bulk molecules (31..60, thorough ..120) or seeded bulk "
+    "molecules around the 999/1000 limits; non-trivial = >= 3 different bond types, or a charge beyond +-3, or >= 1000 atoms/bonds; "
     "SDF: >= 2 records or a registry key part or a multi-line value; RDKit: >= 3 bond types, a charge "
     "beyond +-3 or a stack of >= 2 models"
 )
@@ -104,18 +114,18 @@ TEXT_ALPHABET = (
 )
 SPECIAL_LINES = ["M  END", "M  V30 END CTAB", "M  CHG  1   1   1", "V2000", "0", "> x", "$$$"]
 
+V2000_CHARGE_DECODE = {v: k for k, v in V2000_CHARGE_CODE.items()}
+ALL_CTAB_CODES = set().union(*CTAB_EXPRESSIBLE.values())
+
 R3 = r"(?:  \d| \d\d|\d\d\d)"
-RE_COUNTS = re.compile(rf"^({R3})({R3})(?:{R3}|   ){{9}} V2000$")
-RE_ATOM = re.compile(r"^(.{10})(.{10})(.{10}) (.{3})(.{2})(.{3})((?:.{3}){10})$")
+# an unused / optional 3-wide integer field: any right-aligned integer or blank
+F3 = r"(?:   |  \d| \d\d|\d\d\d| -\d|-\d\d)"
+RE_COUNTS = re.compile(rf"^({R3})({R3})(?:{F3}){{9}} V2000$")
 RE_COORD = re.compile(r"^ *-?\d+\.\d{4}$")
 RE_SYMBOL = re.compile(r"^(?:[A-Z]  |[A-Z][a-z] )$")
-RE_BOND = re.compile(rf"^({R3})({R3})({R3})((?:{R3}){{4}})$")
+RE_F3 = re.compile(rf"^{F3}$")
+RE_DD = re.compile(r"^(?:  | \d|-\d|\d\d)$")
 RE_CHG = re.compile(rf"^M  CHG({R3})((?: {R3} (?:  \d| \d\d| -\d|-\d\d|  0)){{1,8}})$")
-RE_V30_ATOM = re.compile(
-    r"^M  V30 (\d+) ([A-Z][a-z]?) (-?\d+\.\d{4}) (-?\d+\.\d{4}) (-?\d+\.\d{4}) 0 ?(CHG=-?\d+)?$"
-)
-RE_V30_BOND = re.compile(r"^M  V30 (\d+) (\d+) (\d+) (\d+)$")
-V30_COMPAT_COUNTS = "  0  0  0  0  0  0  0  0  0  0999 V3000"
 
 
 def f32(x):
@@ -184,7 +194,8 @@ def mol_parts(case):
     over = case.get("over")
     if over:
         i, axis, value = over
-        atoms[i % len(atoms)][1 + axis % 3] = value
+        # (the value as the float32 coordinate array will hold it)
+        atoms[i % len(atoms)][1 + axis % 3] = f32(value) if math.isfinite(value) else value
     return atoms, bonds
 
 
@@ -249,8 +260,19 @@ def fmt_bonds(s, limit=12):
 # --------------------------------------------------------------------------
 # oracle pieces
 # --------------------------------------------------------------------------
+def bond_alternatives(bonds, default):
+    """{(i, j): set of acceptable types read back}.  A type with a CTAB counterpart must come back
+    exactly; one without may come back as the documented default or - if the target learns to
+    express it (the V3000 bond block e.g. defines 9 = coordination) - as itself."""
+    return {k: ({t} if t in CTAB_EXPRESSIBLE else {t, default}) for k, t in bonds.items()}
+
+
+def bond_dict(bond_list):
+    return {(int(min(i, j)), int(max(i, j))): int(t) for i, j, t in bond_list.as_array()}
+
+
 def check_molecule(o, got, atoms, want_bonds, want_charges, tag=""):
-    """got: AtomArray read back.  want_bonds: set of (i, j, type)."""
+    """got: AtomArray read back.  want_bonds: {(i, j): set of acceptable types}."""
     n = len(atoms)
     if not o.check_eq(got.array_length(), n, "atom_count", tag + "number of atoms"):
         return False
@@ -274,110 +296,225 @@ def check_molecule(o, got, atoms, want_bonds, want_charges, tag=""):
     else:
         gc = None
     o.check(gc == list(want_charges), "charges", lambda: tag + f"charges {gc and gc[:20]} want {list(want_charges)[:20]}")
-    gb = typed_bond_set(got.bonds)
+    gb = bond_dict(got.bonds)
     o.check(
-        gb == want_bonds,
+        got.bonds.get_bond_count() == len(gb) and gb.keys() == want_bonds.keys() and all(gb[k] in want_bonds[k] for k in gb),
         "bonds_typed_set",
-        lambda: tag + f"missing [{fmt_bonds(want_bonds - gb)}] unexpected [{fmt_bonds(gb - want_bonds)}]",
+        lambda: tag
+        + "missing ["
+        + fmt_bonds({(i, j, min(ts)) for (i, j), ts in want_bonds.items() if gb.get((i, j)) not in ts})
+        + "] unexpected ["
+        + fmt_bonds({(i, j, t) for (i, j), t in gb.items() if t not in want_bonds.get((i, j), ())})
+        + "]",
     )
     return True
 
 
+def _fields3(tail, max_fields):
+    """tail of a fixed-column line -> list of 3-wide fields, or None if one of them is not a
+    right-aligned integer / blank (a cut-off last field may only hold blanks)."""
+    if len(tail) > 3 * max_fields:
+        return None
+    out = []
+    for q in range(0, len(tail), 3):
+        f = tail[q : q + 3]
+        if len(f) < 3:
+            if f.strip():
+                return None
+            f = f.ljust(3)
+        if not RE_F3.match(f):
+            return None
+        out.append(f)
+    return out
+
+
 def check_v2000_lines(o, ctab, atoms, bonds, charges, default):
-    """ctab: lines from the counts line to 'M  END' of a V2000 CTAB."""
+    """ctab: lines from the counts line to 'M  END' of a V2000 CTAB.
+
+    Only what the statement names is pinned: the *column positions* of counts, coordinates, symbol,
+    charge code and the bond integers, and that the charges can be recovered from the text.  The
+    content of the other fields and other property lines are free.  Returns None if the layout is
+    broken, else {"ccc": [charge codes of the atom block], "foreign": bond keys written with a code
+    outside the table of this module}."""
     n, nb = len(atoms), len(bonds)
     m = RE_COUNTS.match(ctab[0])
     if not o.check(m is not None, "v2000_counts_line_columns", lambda: f"counts line {ctab[0]!r}"):
-        return
+        return None
     o.check_eq((int(m.group(1)), int(m.group(2))), (n, nb), "v2000_counts_line_columns", "counts")
     if not o.check(len(ctab) >= 1 + n + nb + 1, "v2000_line_count", f"{len(ctab)} lines for {n} atoms {nb} bonds"):
-        return
+        return None
+    ccc = []
+    other_fields = False
     for k in range(n):
         line = ctab[1 + k]
-        m = RE_ATOM.match(line)
-        ok = m is not None and all(RE_COORD.match(m.group(g)) for g in (1, 2, 3))
-        ok = ok and RE_SYMBOL.match(m.group(4)) and m.group(5) == " 0" and m.group(7) == "  0" * 10
+        ok = len(line) >= 32 and all(RE_COORD.match(line[10 * g : 10 * g + 10]) for g in range(3)) and line[30] == " "
+        ok = ok and RE_SYMBOL.match(line[31:34].ljust(3)) is not None
+        rest = line[34:]
+        dd, code, tail = rest[0:2].ljust(2), rest[2:5].ljust(3), _fields3(rest[5:], 10)
+        ok = ok and RE_DD.match(dd) is not None and RE_F3.match(code) is not None and tail is not None
         if not o.check(bool(ok), "v2000_atom_line_columns", lambda: f"atom line {k + 1}: {line!r}"):
-            return
-        o.check_eq(m.group(4).strip().upper(), atoms[k][0].upper(), "v2000_atom_line_columns", f"symbol of atom {k + 1}")
-        code = m.group(6)
-        if not o.check(re.match(rf"^{R3}$", code) is not None, "v2000_atom_line_columns", lambda: f"charge field {code!r}"):
-            return
-        o.check_eq(int(code), V2000_CHARGE_CODE.get(charges[k], 0), "v2000_atom_block_charge_code", f"atom {k + 1} charge {charges[k]}")
+            return None
+        o.check_eq(line[31:34].strip().upper(), atoms[k][0].upper(), "v2000_atom_line_columns", f"symbol of atom {k + 1}")
+        ccc.append(int(code) if code.strip() else 0)
+        if any(f.strip() not in ("", "0") for f in tail) or dd.strip() not in ("", "0"):
+            other_fields = True
+    if other_fields:
+        o.label("v2000_atom_line_other_fields_used")
     seen = {}
     for k in range(nb):
         line = ctab[1 + n + k]
-        m = RE_BOND.match(line)
-        if not o.check(m is not None and m.group(4) == "  0" * 4, "v2000_bond_line_columns", lambda: f"bond line {k + 1}: {line!r}"):
-            return
-        i, j, t = int(m.group(1)), int(m.group(2)), int(m.group(3))
+        tail = _fields3(line[9:], 4)
+        ok = re.match(rf"^{R3}{R3}{R3}", line) is not None and tail is not None
+        if not o.check(ok, "v2000_bond_line_columns", lambda: f"bond line {k + 1}: {line!r}"):
+            return None
+        i, j, t = int(line[0:3]), int(line[3:6]), int(line[6:9])
         if not o.check(1 <= i <= n and 1 <= j <= n and i != j, "v2000_bond_line_columns", lambda: f"bond line {line!r}"):
-            return
+            return None
         seen[(min(i, j) - 1, max(i, j) - 1)] = t
-    want_codes = {k: CTAB_EXPRESSIBLE.get(t, CTAB_EXPRESSIBLE[default]) for k, t in bonds.items()}
+    foreign = set()
+    bad = []
+    if seen.keys() == bonds.keys():
+        for k, t in bonds.items():
+            if t in CTAB_EXPRESSIBLE:
+                if seen[k] not in CTAB_EXPRESSIBLE[t]:
+                    bad.append(k)
+            elif seen[k] in CTAB_EXPRESSIBLE[default]:
+                pass
+            elif seen[k] not in ALL_CTAB_CODES:
+                # a code of its own for a type this module's table cannot express: must read back as that type
+                foreign.add(k)
+            else:
+                bad.append(k)
     o.check(
-        seen.keys() == want_codes.keys() and all(seen[k] in want_codes[k] for k in seen),
+        seen.keys() == bonds.keys() and not bad,
         "v2000_bond_type_code",
-        lambda: f"written {sorted(seen.items())[:10]} want {sorted((k, sorted(v)) for k, v in want_codes.items())[:10]}",
+        lambda: "written "
+        + str([(k, BT_NAME[bonds[k]], seen[k]) for k in sorted(bad)[:10]] if seen.keys() == bonds.keys() else sorted(seen.items())[:10])
+        + f" (bond, type, code); codes by the spec table: {sorted((BT_NAME[t], sorted(v)) for t, v in CTAB_EXPRESSIBLE.items())}, default {BT_NAME[default]}",
     )
+    if foreign:
+        o.label("v2000_own_code_for_inexpressible_type")
     rest = ctab[1 + n + nb :]
     o.check_eq(rest[-1], "M  END", "v2000_terminator", "last line")
+    o.check(not any(ln.startswith("M  END") for ln in rest[:-1]), "v2000_terminator", "'M  END' before the last line")
     listed = {}
+    n_chg = 0
+    other_lines = False
     for line in rest[:-1]:
+        if not line.startswith("M  CHG"):
+            # other property lines (M  RAD, M  ISO, atom lists ...) are none of this property's business
+            other_lines = True
+            continue
+        n_chg += 1
         m = RE_CHG.match(line)
         if not o.check(m is not None, "v2000_chg_line_columns", lambda: f"property line {line!r}"):
-            return
+            return None
         body = m.group(2)
         entries = [body[8 * q : 8 * q + 8] for q in range(len(body) // 8)]
         o.check_eq(int(m.group(1)), len(entries), "v2000_chg_line_columns", f"entry count of {line!r}")
         for e in entries:
             listed[int(e[1:4]) - 1] = int(e[5:8])
+    if other_lines:
+        o.label("v2000_other_property_line")
     want_listed = {k: c for k, c in enumerate(charges) if c != 0}
-    o.check_eq(listed, want_listed, "v2000_chg_lines_list_all_charges", "M  CHG entries")
+    if n_chg:
+        # 'M  CHG' supersedes the atom block: every charge must be listed (explicit zeros are harmless);
+        # the legacy code may additionally be filled or left 0
+        o.label("v2000_charges_in_M_CHG")
+        o.check_eq({k: c for k, c in listed.items() if c != 0}, want_listed, "v2000_chg_lines_list_all_charges", "M  CHG entries")
+        want_codes = [{0, V2000_CHARGE_CODE.get(c, 0)} for c in charges]
+    else:
+        if want_listed:
+            o.label("v2000_charges_in_atom_block_only")
+        o.check(
+            all(abs(c) <= 3 for c in charges),
+            "v2000_chg_lines_list_all_charges",
+            lambda: f"no M  CHG line although the charges {sorted(set(c for c in charges if abs(c) > 3))} have no atom block code",
+        )
+        want_codes = [{V2000_CHARGE_CODE.get(c, 0)} for c in charges]
+    bad_codes = [(k + 1, charges[k], ccc[k]) for k in range(n) if ccc[k] not in want_codes[k]]
+    o.check(not bad_codes, "v2000_atom_block_charge_code", lambda: f"(atom, charge, written code): {bad_codes[:10]}")
+    if n_chg and any(ccc):
+        o.label("v2000_legacy_charge_code_filled")
+    return {"ccc": ccc, "foreign": foreign}
 
 
-def check_v3000_lines(o, ctab, n, nb):
-    o.check_eq(ctab[0], V30_COMPAT_COUNTS, "v3000_layout", "counts line")
-    want_frame = [
-        (1, "M  V30 BEGIN CTAB"),
-        (2, f"M  V30 COUNTS {n} {nb} 0 0 0"),
-        (3, "M  V30 BEGIN ATOM"),
-        (4 + n, "M  V30 END ATOM"),
-        (5 + n, "M  V30 BEGIN BOND"),
-        (6 + n + nb, "M  V30 END BOND"),
-        (7 + n + nb, "M  V30 END CTAB"),
-        (8 + n + nb, "M  END"),
-    ]
-    if not o.check(len(ctab) == 9 + n + nb, "v3000_layout", f"{len(ctab)} lines for {n} atoms {nb} bonds"):
-        return False
-    for pos, text in want_frame:
-        if not o.check_eq(ctab[pos], text, "v3000_layout", f"line {pos}"):
-            return False
-    for k in range(n):
-        if not o.check(RE_V30_ATOM.match(ctab[4 + k]) is not None, "v3000_layout", lambda: f"atom line {ctab[4 + k]!r}"):
-            return False
-    for k in range(nb):
-        if not o.check(RE_V30_BOND.match(ctab[6 + n + k]) is not None, "v3000_layout", lambda: f"bond line {ctab[6 + n + k]!r}"):
-            return False
-    return True
-
-
-def renumber_v3000(ctab, n, nb, reverse, mul, add):
-    """The specification allows arbitrary positive atom indices: map index i
-    (1..n) to mul * p(i) + add with p = identity or reversal."""
-
-    def f(i):
-        p = n + 1 - i if reverse else i
-        return mul * p + add
-
-    out = list(ctab)
-    for k in range(n):
-        m = RE_V30_ATOM.match(ctab[4 + k])
-        out[4 + k] = f"M  V30 {f(int(m.group(1)))}" + ctab[4 + k][m.end(1) :]
-    for k in range(nb):
-        m = RE_V30_BOND.match(ctab[6 + n + k])
-        out[6 + n + k] = f"M  V30 {m.group(1)} {m.group(2)} {f(int(m.group(3)))} {f(int(m.group(4)))}"
+def parse_v3000(ctab):
+    """Tolerant look at a V3000 CTAB (free format: only 'M  V30 ' prefix, BEGIN/END markers and
+    blank-separated tokens are used).  -> {"counts": (na, nb) | None, "atom": [line positions],
+    "bond": [line positions]} or None if the layout is not recognised (continuation lines, quoted
+    tokens, missing atom block ...)."""
+    where = None
+    out = {"counts": None, "atom": [], "bond": []}
+    closed = set()
+    for pos, line in enumerate(ctab):
+        if not line.startswith("M  V30 "):
+            continue
+        if line.rstrip().endswith("-") or '"' in line or "'" in line:
+            return None
+        tok = line[7:].split()
+        if not tok:
+            continue
+        if tok[0] == "COUNTS" and where is None:
+            if len(tok) >= 3 and tok[1].isdigit() and tok[2].isdigit():
+                out["counts"] = (int(tok[1]), int(tok[2]))
+        elif tok[0] == "BEGIN" and len(tok) >= 2:
+            if tok[1] in ("ATOM", "BOND"):
+                if where is not None or tok[1] in closed:
+                    return None
+                where = tok[1].lower()
+            elif tok[1] != "CTAB":
+                # a block this module does not know: leave the table alone
+                return None
+        elif tok[0] == "END" and len(tok) >= 2:
+            if tok[1] in ("ATOM", "BOND"):
+                if where != tok[1].lower():
+                    return None
+                closed.add(tok[1])
+                where = None
+        elif where == "atom":
+            if len(tok) < 5 or not tok[0].isdigit():
+                return None
+            out["atom"].append(pos)
+        elif where == "bond":
+            if len(tok) < 4 or not all(t.isdigit() for t in tok[:4]):
+                return None
+            out["bond"].append(pos)
+    if where is not None or "ATOM" not in closed:
+        return None
     return out
+
+
+def renumber_v3000(ctab, layout, reverse, mul, add):
+    """The specification allows arbitrary positive atom indices: map the written index i
+    to mul * p(i) + add with p = identity or reversal of the written order."""
+    old = [int(ctab[pos][7:].split()[0]) for pos in layout["atom"]]
+    if len(set(old)) != len(old):
+        return None
+    order = list(reversed(old)) if reverse else old
+    rank = {idx: r for r, idx in enumerate(order)}
+    new = {idx: mul * (rank[idx] + 1) + add for idx in old}
+    out = list(ctab)
+    for pos in layout["atom"]:
+        tok = ctab[pos][7:].split()
+        tok[0] = str(new[int(tok[0])])
+        out[pos] = "M  V30 " + " ".join(tok)
+    for pos in layout["bond"]:
+        tok = ctab[pos][7:].split()
+        if int(tok[2]) not in new or int(tok[3]) not in new:
+            return None
+        tok[2], tok[3] = str(new[int(tok[2])]), str(new[int(tok[3])])
+        out[pos] = "M  V30 " + " ".join(tok)
+    return out
+
+
+def read_ctab_public(ctab):
+    """Read a bare CTAB through the public file class (three empty header lines in front)."""
+    import biotite.structure.io.mol as molio
+
+    f = molio.MOLFile()
+    f.lines = ["", "", ""] + list(ctab)
+    return f.get_structure()
 
 
 def write_read_text(obj, cls, io_mode):
@@ -405,21 +542,29 @@ def write_read_text(obj, cls, io_mode):
 def run_mol(case):
     import biotite.structure.io.mol as molio
     from biotite.file import InvalidFileError
-    from biotite.structure.io.mol.ctab import read_structure_from_ctab
-    from biotite.structure import BadStructureError, BondType
+    from biotite.structure import BondType
 
     o = Outcome()
     atoms, bonds = mol_parts(case)
     n, nb = len(atoms), len(bonds)
+    if any(not math.isfinite(v) or abs(v) > 1e15 for a in atoms for v in a[1:4]):
+        # outside "coordinates up to the column limits" and, for the width test of the writer, a
+        # float -> int conversion whose result is platform dependent: not judged (stored cases only)
+        o.invalid = True
+        return o
     has_charge = case["has_charge"]
     charges = [a[4] if has_charge else 0 for a in atoms]
     version = case["version"]
     default = case["default"]
     arr = mk_atom_array(atoms, bonds, has_charge)
     types_used = {t for t in bonds.values()}
+    api = case.get("api", "method")
+    io_mode = case.get("io", "stringio")
 
-    o.label(f"version={version}", f"default={BT_NAME[default]}")
+    o.label(f"version={version}", f"default={BT_NAME[default]}", f"api={api}", f"io={io_mode}")
     o.label("n<=10" if n <= 10 else "n<=60" if n <= 60 else "n<1000" if n < 1000 else "n>=1000")
+    if case.get("bulk"):
+        o.label("bulk_molecule")
     if nb >= 1000:
         o.label("bonds>=1000")
     if n >= 1000 or nb >= 1000:
@@ -440,39 +585,47 @@ def run_mol(case):
     hdr = case.get("header")
 
     def set_struct():
-        if case.get("api") == "convert":
+        if api == "convert":
             molio.set_structure(f, arr, default_bond_type=BondType(default), version=version)
         else:
             f.set_structure(arr, default_bond_type=BondType(default), version=version)
 
-    if hdr is not None and case.get("header_first", True):
-        f.header = mk_header(hdr)
+    if hdr is not None:
+        o.label("header_first" if case.get("header_first", True) else "header_after_structure")
+        if case.get("header_first", True):
+            f.header = mk_header(hdr)
 
     coords_fit = all(fits_columns(v) for a in atoms for v in a[1:4])
     too_many = n >= 1000 or nb >= 1000
+    if not coords_fit:
+        o.label("coordinate_beyond_columns", f"coordinate_beyond_columns:version={version}")
+    if version == "V2000" and too_many:
+        o.label("v2000_requested_but_too_large")
     with warnings.catch_warnings():
         warnings.simplefilter("ignore")
-        if not coords_fit:
-            o.label("coordinate_beyond_columns")
+        if coords_fit and not (version == "V2000" and too_many):
+            set_struct()
+        else:
+            # "select V3000 or raise an error": no exception type is promised anywhere
             try:
                 set_struct()
-            except BadStructureError:
-                o.label("coordinate_beyond_columns:raised")
+            except Exception as e:  # noqa: BLE001
+                o.label(f"refused:{type(e).__name__}")
+                o.label("coordinate_beyond_columns:raised" if not coords_fit else "v2000_too_large:raised")
                 return o
-            # not raised: only acceptable as a V3000 table (checked below like any other)
+            if version == "V2000" and too_many:
+                o.fail("v2000_too_many_atoms_or_bonds_raises", f"{n} atoms {nb} bonds as V2000: no exception, counts line {f.lines[3]!r}")
+                return o
+            # a value beyond the columns was not refused: only acceptable as a V3000 table
+            # (which is then read back and compared like any other)
             if version == "V2000" or not f.lines[3].endswith("V3000"):
                 o.fail("value_beyond_v2000_columns_rejected", f"written: {f.lines[3:6]!r}")
                 return o
-        elif version == "V2000" and too_many:
-            o.label("v2000_requested_but_too_large")
-            o.expect_raises(ValueError, set_struct, "v2000_too_many_atoms_or_bonds_raises", f"{n} atoms {nb} bonds as V2000")
-            return o
-        else:
-            set_struct()
+            o.label("coordinate_beyond_columns:written_as_V3000")
     if hdr is not None and not case.get("header_first", True):
         f.header = mk_header(hdr)
 
-    text, back = write_read_text(f, molio.MOLFile, case.get("io", "stringio"))
+    text, back = write_read_text(f, molio.MOLFile, io_mode)
     lines = text.splitlines()
     ctab = lines[3:]
     written_version = "V3000" if ctab[0].endswith("V3000") else "V2000" if ctab[0].endswith("V2000") else "?"
@@ -480,17 +633,27 @@ def run_mol(case):
     if version is not None:
         o.check_eq(written_version, version, "requested_version_written", "CTAB version")
     else:
-        o.check_eq(written_version, "V3000" if too_many else "V2000", "automatic_version_selection", f"{n} atoms {nb} bonds")
+        want_version = "V3000" if (too_many or not coords_fit) else "V2000"
+        o.check_eq(written_version, want_version, "automatic_version_selection", f"{n} atoms {nb} bonds")
         if too_many:
             o.label("V3000_auto_selected")
 
-    want_bonds = {(i, j, t if t in CTAB_EXPRESSIBLE else default) for (i, j), t in bonds.items()}
+    want_bonds = bond_alternatives(bonds, default)
 
+    v2 = v3 = None
     if written_version == "V2000":
-        check_v2000_lines(o, ctab, atoms, bonds, charges, default)
-        layout_ok = o.ok
+        v2 = check_v2000_lines(o, ctab, atoms, bonds, charges, default)
+        if v2 is not None:
+            for k in v2["foreign"]:
+                want_bonds[k] = {bonds[k]}
     elif written_version == "V3000":
-        layout_ok = check_v3000_lines(o, ctab, n, nb)
+        v3 = parse_v3000(ctab)
+        if v3 is None:
+            o.label("v3000_layout_unrecognised")
+        else:
+            o.check_eq(ctab[-1], "M  END", "v3000_terminator", "last line")
+            if v3["counts"] is not None:
+                o.check_eq(v3["counts"], (n, nb), "v3000_counts_line", "atom and bond count of the COUNTS line")
     else:
         o.fail("requested_version_written", f"counts line {ctab[0]!r}")
         return o
@@ -503,7 +666,7 @@ def run_mol(case):
                 o.label("header_line_M_END")
             o.check_eq(header_fields(back.header), {**hdr}, "mol_header_fields", "header")
         try:
-            if case.get("api") == "convert":
+            if api == "convert":
                 got = molio.get_structure(back)
             else:
                 got = back.get_structure()
@@ -511,22 +674,35 @@ def run_mol(case):
             # the file was written by biotite from a valid molecule and header
             o.fail("written_mol_file_is_readable", f"get_structure(): InvalidFileError: {e}; header lines {lines[:3]!r}")
             return o
-        check_molecule(o, got, atoms, want_bonds, charges)
+        if check_molecule(o, got, atoms, want_bonds, charges):
+            gb = bond_dict(got.bonds)
+            if any(t not in CTAB_EXPRESSIBLE and gb.get(k) == t and t != default for k, t in bonds.items()):
+                o.label("inexpressible_bond_type_came_back_as_itself")
 
-        if layout_ok and written_version == "V2000" and any(c != 0 for c in charges):
-            # the atom block alone (a V2000 file without the optional M  CHG property lines)
+        if v2 is not None and any(v2["ccc"]):
+            # the atom block alone (a V2000 file without the optional M  CHG property lines): the reader
+            # has to take the charge codes that are written there by the table of the specification
             stripped = [ln for ln in ctab if not ln.startswith("M  CHG")]
-            got2 = read_structure_from_ctab(stripped)
-            want2 = [c if abs(c) <= 3 else 0 for c in charges]
-            o.check(
-                [int(c) for c in got2.charge] == want2,
-                "v2000_atom_block_charge_read",
-                lambda: f"atom block charges read {[int(c) for c in got2.charge][:20]} want {want2[:20]}",
-            )
-        if layout_ok and written_version == "V3000":
+            got2 = read_ctab_public(stripped)
+            want2 = [V2000_CHARGE_DECODE.get(c) for c in v2["ccc"]]
+            if None in want2:
+                o.label("v2000_charge_code_outside_table")
+            else:
+                o.label("v2000_atom_block_charge_read")
+                o.check(
+                    [int(c) for c in got2.charge] == want2,
+                    "v2000_atom_block_charge_read",
+                    lambda: f"atom block charges read {[int(c) for c in got2.charge][:20]} want {want2[:20]}",
+                )
+        if v3 is not None:
             rev, mul, add = case.get("renumber", [True, 1, 0])
-            got3 = read_structure_from_ctab(renumber_v3000(ctab, n, nb, rev, mul, add))
-            check_molecule(o, got3, atoms, want_bonds, charges, tag=f"[V3000 atom indices renumbered rev={rev} *{mul} +{add}] ")
+            renumbered = renumber_v3000(ctab, v3, rev, mul, add)
+            if renumbered is None:
+                o.label("v3000_layout_unrecognised")
+            else:
+                o.label("v3000_renumbered_read")
+                got3 = read_ctab_public(renumbered)
+                check_molecule(o, got3, atoms, want_bonds, charges, tag=f"[V3000 atom indices renumbered rev={rev} *{mul} +{add}] ")
     return o
 
 
@@ -566,6 +742,15 @@ def st_free_line(max_size=80):
 
 
 def st_header(with_name=True):
+    h = _st_header(with_name)
+    if not with_name:
+        # (SD files) '$$$$' at the start of any line is the record delimiter of the format itself:
+        # initials '$$' + a full-width program '$$......' would put it on the second header line
+        h = h.filter(lambda d: not f"{d['initials']:>2.2}{d['program']:>8.8}".startswith("$$$$"))
+    return h
+
+
+def _st_header(with_name):
     return st.fixed_dictionaries(
         {
             "mol_name": st_free_line(80) if with_name else st.just(""),
@@ -621,7 +806,11 @@ def st_coord():
     ).filter(fits_columns)
 
 
-OVER_VALUES = [100000.0, -10000.0, 1e6, -99999.0, 123456.7, 100000.0078125, -10000.0009765625, 3e38, float("inf"), float("-inf")]
+# values that need more than the 10 columns of the V2000 atom block.  Non-finite values and values
+# beyond the int64 range are not drawn: outside "coordinates up to the column limits", and the width
+# test of the writer converts float -> int, which is platform dependent for them (run_mol marks a
+# stored case that holds one as invalid).
+OVER_VALUES = [100000.0, -10000.0, 1e6, -99999.0, 123456.7, 100000.0078125, -10000.0009765625, 1e9, -1e12, -10000.5]
 
 
 def st_charge():
@@ -662,25 +851,53 @@ def st_mol_common():
 
 def st_mol_small(tier):
     max_atoms = 60 if tier == "quick" else 120
+    # every strategy object is built once here, not per drawn case (building and validating them
+    # anew for every example costs more than running the example)
+    buckets = [(1, 3), (4, 12), (4, 12), (4, 12), (13, 30), (31, max_atoms)]
+    s_bucket = st.sampled_from(buckets)
+    s_atoms = {(lo, hi): st_atoms(hi, lo) for lo, hi in set(buckets) if lo <= 30}
+    s_bonds = {(lo, hi, mb): st_bonds(hi, 2 * hi, mb) for lo, hi in set(buckets) if lo <= 30 for mb in (0, min(lo, 8))}
+    s_header = st.one_of(st.none(), st_header())
+    s_api = st.sampled_from(["method", "method", "convert"])
+    s_io = st.sampled_from(["stringio"] * 7 + ["path"])
+    s_common = st.fixed_dictionaries(st_mol_common())
+    s_over = st.tuples(st.integers(0, max_atoms), st.integers(0, 2), st.sampled_from(OVER_VALUES)).map(list)
+    s_rare = st_rarely(12)
+    s_seed = st.integers(0, 2**31 - 1)
+    s_bool = st.booleans()
+    s_mode = st.integers(0, 2)
 
     @st.composite
     def gen(draw):
-        lo, hi = draw(st.sampled_from([(1, 3), (4, 12), (4, 12), (4, 12), (13, 30), (31, max_atoms)]))
-        size = hi
+        lo, hi = draw(s_bucket)
+        if lo > 30:
+            # explicit atoms of this size cost more to generate than to check: seeded bulk molecule
+            # (explicit, shrinkable atoms stay for 1..30)
+            n = draw(st.integers(lo, hi))
+            atoms = bonds = None
+            bulk = {
+                "n": n,
+                "nb": draw(st.integers(0, 2 * n)),
+                "seed": draw(s_seed),
+                "charge_mode": draw(s_mode),
+            }
+        else:
+            atoms = draw(s_atoms[(lo, hi)])
+            bonds = draw(s_bonds[(lo, hi, min(lo, 8) if draw(s_bool) else 0)])
+            bulk = None
         case = {
-            "atoms": draw(st_atoms(hi, lo)),
-            "bonds": draw(st_bonds(hi, 2 * hi, draw(st.sampled_from([0, min(lo, 8)])))),
-            "bulk": None,
-            "header": draw(st.one_of(st.none(), st_header())),
-            "header_first": draw(st.booleans()),
-            "api": draw(st.sampled_from(["method", "method", "convert"])),
-            "io": draw(st.sampled_from(["stringio"] * 7 + ["path"])),
+            "atoms": atoms,
+            "bonds": bonds,
+            "bulk": bulk,
+            "header": draw(s_header),
+            "header_first": draw(s_bool),
+            "api": draw(s_api),
+            "io": draw(s_io),
             "over": None,
         }
-        for k, s in st_mol_common().items():
-            case[k] = draw(s)
-        if draw(st_rarely(12)):
-            case["over"] = [draw(st.integers(0, size)), draw(st.integers(0, 2)), draw(st.sampled_from(OVER_VALUES))]
+        case.update(draw(s_common))
+        if draw(s_rare):
+            case["over"] = draw(s_over)
         if case["io"] == "path" and case["header"] is not None:
             # a real file is written in the locale's encoding: keep it ASCII
             if not all(isinstance(v, str) and v.isascii() for k, v in case["header"].items() if k != "time"):
@@ -692,6 +909,7 @@ def st_mol_small(tier):
 
 def st_mol_large(tier):
     top = 1100 if tier == "quick" else 1500
+    s_common = st.fixed_dictionaries(st_mol_common())
 
     @st.composite
     def gen(draw):
@@ -718,8 +936,7 @@ def st_mol_large(tier):
             "io": "stringio",
             "over": None,
         }
-        for k, s in st_mol_common().items():
-            case[k] = draw(s)
+        case.update(draw(s_common))
         return case
 
     return gen()
@@ -752,6 +969,30 @@ def key_tuple(k):
     return [k.number, k.name, k.registry_internal, k.registry_external]
 
 
+def check_metadata(o, metadata, want_items, what):
+    """'survive unchanged' as a mapping: same keys (all four parts), same values; biotite's own
+    Metadata.__eq__ ignores the order, so a changed order is labelled, not failed."""
+    got = [(tuple(key_tuple(k)), v) for k, v in metadata.items()]
+    want = [(tuple(k), v) for k, v in want_items]
+    ok = o.check(
+        len(got) == len(want) and dict(got) == dict(want),
+        "sdf_metadata",
+        lambda: f"{what}: got {[[list(k), v] for k, v in got]!r}, want {[[list(k), v] for k, v in want]!r}",
+    )
+    if ok and got != want:
+        o.label("metadata_order_changed")
+    return ok
+
+
+def _name_only(meta):
+    return len(meta) > 0 and all(k[0] is None and k[2] is None and k[3] is None for k, _ in meta)
+
+
+def _sdf_header_line_is_delimiter(h):
+    # '$$$$' at the start of any line is the record delimiter of the SD format itself
+    return h is not None and f"{h['initials']:>2.2}{h['program']:>8.8}".startswith("$$$$")
+
+
 def run_sdf(case):
     import biotite.structure.io.mol as molio
     from biotite.structure import BondType
@@ -760,58 +1001,83 @@ def run_sdf(case):
     if case.get("edge_ws_excluded"):
         o.exclude(F1)
     recs = case["records"]
+    if any(_sdf_header_line_is_delimiter(r["header"]) for r in recs):
+        # the format cannot carry it (stored cases only, the generator filters it)
+        o.invalid = True
+        return o
     sdf = molio.SDFile()
     parts = []
-    for r in recs:
+    for pos, r in enumerate(recs):
         atoms, bonds = bulk_molecule(r["mol"])
         parts.append((atoms, bonds))
         arr = mk_atom_array(atoms, bonds, True)
-        meta = molio.Metadata(
-            {
-                molio.Metadata.Key(number=k[0], name=k[1], registry_internal=k[2], registry_external=k[3]): v
-                for k, v in r["meta"]
-            }
-        )
+        key_meta = {
+            molio.Metadata.Key(number=k[0], name=k[1], registry_internal=k[2], registry_external=k[3]): v
+            for k, v in r["meta"]
+        }
         fill_later = len(recs) >= 2 and (len(r["meta"]) + len(r["name"])) % 2 == 0
+        # the documented forms of the metadata argument: Metadata, a Mapping with Metadata.Key or
+        # (name-only keys) plain str keys, given to the constructor or assigned to the attribute
+        form = (len(r["name"]) + r["mol"]["seed"]) % 4
+        if _name_only(r["meta"]) and form in (1, 3):
+            meta, meta_form = {k[1]: v for k, v in r["meta"]}, "metadata_given_as_str_mapping"
+        elif form == 2:
+            meta, meta_form = key_meta, "metadata_given_as_key_mapping"
+        else:
+            meta, meta_form = molio.Metadata(key_meta), "metadata_given_as_Metadata"
+        if not fill_later:
+            o.label(meta_form)
         if fill_later:
             # a default-constructed record that is filled through its attributes afterwards
             # (every record must own its metadata)
             o.label("record_filled_after_default_construction")
             record = molio.SDRecord() if r["header"] is None else molio.SDRecord(header=mk_header(r["header"], mol_name="to be replaced"))
-            for key, value in meta.items():
+            for key, value in key_meta.items():
                 record.metadata[key] = value
+        elif form == 3:
+            o.label("metadata_assigned_to_attribute")
+            record = molio.SDRecord() if r["header"] is None else molio.SDRecord(header=mk_header(r["header"], mol_name="to be replaced"))
+            record.metadata = meta
         elif r["header"] is None:
             record = molio.SDRecord(metadata=meta)
         else:
             record = molio.SDRecord(header=mk_header(r["header"], mol_name="to be replaced"), metadata=meta)
         if r.get("api") == "convert":
             sdf[r["name"]] = record
-            molio.set_structure(sdf, arr, version=r["version"], record_name=r["name"])
+            if pos == 0 and form % 2 == 0:
+                # documented default: the first record of the file
+                o.label("set_structure_default_record")
+                molio.set_structure(sdf, arr, version=r["version"])
+            else:
+                molio.set_structure(sdf, arr, version=r["version"], record_name=r["name"])
         else:
             record.set_structure(arr, default_bond_type=BondType.ANY, version=r["version"])
             sdf[r["name"]] = record
 
     with warnings.catch_warnings():
         warnings.simplefilter("ignore")
-        text, back = write_read_text(sdf, molio.SDFile, case.get("io", "stringio"))
+        io_mode = case.get("io", "stringio")
+        text, back = write_read_text(sdf, molio.SDFile, io_mode)
         names = [r["name"] for r in recs]
-        o.label(f"records={len(recs)}")
+        o.label(f"records={len(recs)}", f"io={io_mode}")
         if case.get("edge_ws"):
             o.label("edge_blanks")
         if not o.check_eq(list(back.keys()), names, "record_names_and_order", "record names"):
             return o
         multi_line = registry = False
         for r, (atoms, bonds) in zip(recs, parts):
-            rec = back[r["name"]]
+            if len(recs) == 1 and r["mol"]["seed"] % 2 == 0:
+                o.label("SDFile.record")
+                rec = back.record
+            else:
+                rec = back[r["name"]]
             want_hdr = dict(r["header"]) if r["header"] is not None else {
                 "initials": "", "program": "", "time": None, "dimensions": "", "scaling_factors": "",
                 "energy": "", "registry_number": "", "comments": "",
             }
             want_hdr["mol_name"] = r["name"]
             o.check_eq(header_fields(rec.header), want_hdr, "sdf_header_fields", f"header of record {r['name']!r}")
-            got_meta = [[key_tuple(k), v] for k, v in rec.metadata.items()]
-            want_meta = [[list(k), v] for k, v in r["meta"]]
-            o.check_eq(got_meta, want_meta, "sdf_metadata", f"metadata of record {r['name']!r}")
+            check_metadata(o, rec.metadata, r["meta"], f"metadata of record {r['name']!r}")
             for k, v in r["meta"]:
                 if "\n" in v:
                     multi_line = True
@@ -820,12 +1086,27 @@ def run_sdf(case):
                 o.label(
                     "key:" + "+".join(p for p, x in zip(("number", "name", "regint", "regext"), k) if x is not None)
                 )
-            want_bonds = {(i, j, t if t in CTAB_EXPRESSIBLE else BT["ANY"]) for (i, j), t in bonds.items()}
+            charges = [a[4] for a in atoms]
+            o.label(f"api={r.get('api', 'method')}")
+            if any(charges):
+                o.label("record_with_charges")
+            if sum(1 for c in charges if c != 0) > 8:
+                o.label("record_with_>8_charged_atoms")
+            if any(charges) and r["meta"] and r["version"] != "V3000":
+                o.label("M_CHG_lines_followed_by_metadata")
+            if len(atoms) >= 1000 or len(bonds) >= 1000:
+                o.label("record_with_>=1000_atoms_or_bonds")
+            want_bonds = bond_alternatives(bonds, BT["ANY"])
             if r.get("api") == "convert":
-                got = molio.get_structure(back, record_name=r["name"])
+                if len(recs) == 1 and r["mol"]["seed"] % 4 < 2:
+                    # documented default: the sole record
+                    o.label("get_structure_default_record")
+                    got = molio.get_structure(back)
+                else:
+                    got = molio.get_structure(back, record_name=r["name"])
             else:
                 got = rec.get_structure()
-            check_molecule(o, got, atoms, want_bonds, [a[4] for a in atoms], tag=f"[record {r['name']!r}] ")
+            check_molecule(o, got, atoms, want_bonds, charges, tag=f"[record {r['name']!r}] ")
         # a new file assembled from the (still unparsed) records of a parsed one through the
         # constructor argument, under new names and in reverse order
         fresh = molio.SDFile.read(io.StringIO(text))
@@ -836,7 +1117,7 @@ def run_sdf(case):
             for i, r in enumerate(recs):
                 rec = again[f"renamed {i}"]
                 o.check_eq(rec.header.mol_name, f"renamed {i}", "sdf_header_fields", "mol_name of a renamed record")
-                o.check_eq([[key_tuple(k), v] for k, v in rec.metadata.items()], [[list(k), v] for k, v in r["meta"]], "sdf_metadata", f"metadata of renamed record {i}")
+                check_metadata(o, rec.metadata, r["meta"], f"metadata of renamed record {i}")
         if multi_line:
             o.label("multi_line_value")
         if registry:
@@ -905,36 +1186,58 @@ def st_sdf(tier):
     max_atoms = 6 if tier == "quick" else 20
     f1_open = findings.is_open(F1)
 
+    # (strategy objects built once, see st_mol_small)
+    s_meta = st.lists(st.tuples(st_key(), st_value()).map(list), max_size=4, unique_by=lambda kv: tuple(kv[0]))
+    s_size = st.sampled_from(["tiny"] * 6 + ["charged", "charged", "large?"])
+    s_rare8, s_rare10 = st_rarely(8), st_rarely(10)
+    s_tiny = st.tuples(st.integers(1, max_atoms), st.integers(0, max_atoms), st.sampled_from([0, 1, 1, 2]))
+    s_charged = st.tuples(st.integers(9, 20), st.integers(0, 12), st.just(2))
+    s_large = st.tuples(st.sampled_from([999, 1000, 1003]), st.sampled_from([0, 999, 1000]), st.just(1))
+    s_version = st.sampled_from([None, "V2000", "V3000"])
+    s_name = st_record_name()
+    s_header = st.one_of(st.none(), st_header(with_name=False))
+    s_seed = st.integers(0, 2**31 - 1)
+    s_api = st.sampled_from(["method", "method", "convert"])
+    s_io = st.sampled_from(["stringio"] * 2 + ["path"])
+
     @st.composite
     def record(draw):
-        meta = draw(st.lists(st.tuples(st_key(), st_value()).map(list), max_size=4, unique_by=lambda kv: tuple(kv[0])))
+        meta = draw(s_meta)
+        # mostly tiny molecules; sometimes enough charged atoms for two 'M  CHG' lines in front of the
+        # metadata; thorough: now and then a record beyond the V2000 count limit
+        size = draw(s_size)
+        if size == "large?":
+            size = "large" if tier != "quick" and draw(s_rare8) else "tiny"
+        n, nb, mode = draw({"tiny": s_tiny, "charged": s_charged, "large": s_large}[size])
+        version = draw(s_version)
+        if size == "large" and version == "V2000":
+            version = None
         return {
-            "name": draw(st_record_name()),
-            "header": draw(st.one_of(st.none(), st_header(with_name=False))),
+            "name": draw(s_name),
+            "header": draw(s_header),
             "meta": meta,
-            "mol": {
-                "n": draw(st.integers(1, max_atoms)),
-                "nb": draw(st.integers(0, max_atoms)),
-                "seed": draw(st.integers(0, 2**31 - 1)),
-                "charge_mode": 1,
-            },
-            "version": draw(st.sampled_from([None, "V2000", "V3000"])),
-            "api": draw(st.sampled_from(["method", "method", "convert"])),
+            "mol": {"n": n, "nb": nb, "seed": draw(s_seed), "charge_mode": mode},
+            "version": version,
+            "api": draw(s_api),
         }
+
+    s_records = st.lists(record(), min_size=1, max_size=4, unique_by=lambda r: r["name"])
+    s_spot, s_pad = st.integers(0, 5), st.sampled_from([" ", "  ", "\t"])
 
     @st.composite
     def gen(draw):
-        recs = draw(st.lists(record(), min_size=1, max_size=4, unique_by=lambda r: r["name"]))
-        case = {"records": recs, "io": draw(st.sampled_from(["stringio"] * 7 + ["path"]))}
-        if draw(st_rarely(10)):
+        recs = draw(s_records)
+        # (a real file only for all-ASCII cases, see below: about 1 in 10 of the drawn "path" cases survives)
+        case = {"records": recs, "io": draw(s_io)}
+        if draw(s_rare10):
             # blanks at the edges of free-text lines (record name, comments, metadata value lines)
             if f1_open:
                 case["edge_ws_excluded"] = True
             else:
                 case["edge_ws"] = True
-                spot = draw(st.integers(0, 5))
+                spot = draw(s_spot)
                 r = recs[draw(st.integers(0, len(recs) - 1))]
-                pad = draw(st.sampled_from([" ", "  ", "\t"]))
+                pad = draw(s_pad)
                 if spot in (0, 1) and r["meta"]:
                     kv = r["meta"][0]
                     kv[1] = pad + kv[1] if spot == 0 else kv[1] + pad
@@ -984,13 +1287,32 @@ def rdkit_parts(case):
     return atoms, bonds, set(ring_edges)
 
 
+def rdkit_coords(seed, mode, m, n):
+    """Seeded float32 coordinates: 'narrow' = -100..100, 'wide' = random bit patterns over the whole
+    finite float32 range (incl. subnormals and both zeros)."""
+    rng = np.random.default_rng(seed)
+    if mode == "wide":
+        bits = rng.integers(0, 2**32, size=(m, n, 3), dtype=np.uint64).astype(np.uint32)
+        coord = bits.view(np.float32).copy()
+        coord[~np.isfinite(coord)] = np.float32(-0.0)
+        return coord
+    return rng.uniform(-100, 100, size=(m, n, 3)).astype(np.float32)
+
+
 def mk_rdkit_input(case):
     import biotite.structure as struc
 
     atoms, bonds, ring_edges = rdkit_parts(case)
     n = len(atoms)
     m = case["models"]
-    coord = np.array(case["coords"], dtype=np.float32)[: m * n * 3].reshape(m, n, 3)
+    if case.get("coords") is not None:
+        coord = np.array(case["coords"], dtype=np.float32)[: m * n * 3].reshape(m, n, 3)
+    else:
+        coord = rdkit_coords(case["coord_seed"], case["coord_mode"], m, n)
+    for k, flat in enumerate(case.get("planar") or []):
+        # a model without z-extent (a molecule drawn in the x-y plane)
+        if flat and k < m:
+            coord[k, :, 2] = 0.0
     if case["stack"]:
         arr = struc.AtomArrayStack(m, n)
         arr.coord = coord
@@ -1026,8 +1348,10 @@ def run_rdkit(case):
     m = case["models"] if case["stack"] else 1
     coord = coord[:m]
     dative, kekulize, explicit_h = case["use_dative"], case["kekulize"], case["explicit_h"]
-    # biotite's convention (and to_mol's test) for a hydrogen atom is the element "H"
+    # biotite's convention (and to_mol's test) for a hydrogen atom is the element "H"; whether another
+    # spelling ("h") counts as hydrogen is not stated anywhere
     has_h = any(a[0] == "H" for a in atoms)
+    odd_h = not has_h and any(a[0].upper() == "H" for a in atoms)
     types_used = set(bonds.values())
     charges = [a[1] if case["has_charge"] else 0 for a in atoms]
 
@@ -1042,6 +1366,16 @@ def run_rdkit(case):
         o.label("has_aromatic_ring")
     if has_h:
         o.label("has_hydrogen")
+    if not case["has_charge"]:
+        o.label("no_charge_annotation")
+    if case["extras"]:
+        o.label("with_b_factor_occupancy_altloc")
+    o.label(f"explicit_h={explicit_h}")
+    flat = [bool(np.all(coord[k, :, 2] == 0)) for k in range(m)]
+    if m >= 2 and any(flat) and not all(flat):
+        o.label("some_but_not_all_models_planar")
+    elif any(flat):
+        o.label("all_models_planar")
     o.mark_nontrivial(len(types_used) >= 3 or any(abs(c) > 3 for c in charges) or m >= 2)
 
     with warnings.catch_warnings():
@@ -1055,7 +1389,16 @@ def run_rdkit(case):
                 "to_mol",
             )
             return o
-        mol = brd.to_mol(arr, kekulize=kekulize, use_dative_bonds=dative, explicit_hydrogen=explicit_h)
+        if explicit_h is False and odd_h:
+            # hydrogen in another spelling: refused like "H" (documented type) or converted like any atom
+            o.label("explicit_hydrogen_false_with_h_in_other_spelling")
+            try:
+                mol = brd.to_mol(arr, kekulize=kekulize, use_dative_bonds=dative, explicit_hydrogen=False)
+            except struc.BadStructureError:
+                o.label("other_spelling_refused_as_hydrogen")
+                return o
+        else:
+            mol = brd.to_mol(arr, kekulize=kekulize, use_dative_bonds=dative, explicit_hydrogen=explicit_h)
 
         # --- the RDKit molecule itself (documented: same atom order, one conformer per model, IDs from 0)
         if not o.check_eq(mol.GetNumAtoms(), n, "rdkit_atom_count", "Mol.GetNumAtoms()"):
@@ -1091,8 +1434,14 @@ def run_rdkit(case):
         for col, name in ((2, "atom_name"), (3, "res_name"), (4, "chain_id"), (5, "res_id"), (6, "ins_code"), (7, "hetero")):
             o.check_eq(back.get_annotation(name).tolist(), [a[col] for a in atoms], "rdkit_residue_annotations", name)
         if case["extras"]:
-            o.check_eq(back.b_factor.tolist(), [float(a[8]) for a in atoms], "rdkit_residue_annotations", "b_factor")
-            o.check_eq(back.occupancy.tolist(), [float(a[9]) for a in atoms], "rdkit_residue_annotations", "occupancy")
+            # (nothing documents the float width these travel in: single precision is enough)
+            for col, name in ((8, "b_factor"), (9, "occupancy")):
+                want_f = np.array([float(a[col]) for a in atoms])
+                got_f = np.asarray(back.get_annotation(name), dtype=float)
+                close = np.abs(got_f - want_f) <= 2.0**-22 * np.abs(want_f) + 1e-30
+                o.check(bool(close.all()), "rdkit_residue_annotations", lambda: f"{name}: got {got_f.tolist()!r}, want {want_f.tolist()!r}")
+                if not np.array_equal(got_f, want_f):
+                    o.label(f"{name}_within_float32_only")
             o.check_eq(back.label_alt_id.tolist(), [a[10] for a in atoms], "rdkit_residue_annotations", "label_alt_id")
 
         got = {}
@@ -1102,7 +1451,12 @@ def run_rdkit(case):
             for key, t in sorted(bonds.items()):
                 g = got[key]
                 if t in AROMATIC_TYPES:
-                    if kekulize:
+                    if kekulize and t == BT["AROMATIC"]:
+                        # documented is AROMATIC_{ORDER} -> {ORDER}; what an order-less AROMATIC bond becomes
+                        # (ANY today, an order chosen by a real kekulisation) is not: it must only lose aromaticity
+                        o.check(g not in AROMATIC_TYPES and g in BT_NAME, "kekulize_removes_aromaticity", lambda: f"bond {key} AROMATIC came back as {BT_NAME.get(g, g)}")
+                        o.label(f"kekulized_AROMATIC_became_{BT_NAME.get(g, g)}")
+                    elif kekulize:
                         o.check_eq(g, KEKULIZED[t], "kekulize_removes_aromaticity", f"bond {key} {BT_NAME[t]}")
                     else:
                         o.check(g in AROMATIC_TYPES, "aromatic_bonds_stay_aromatic", lambda: f"bond {key} {BT_NAME[t]} came back as {BT_NAME.get(g, g)}")
@@ -1121,6 +1475,28 @@ def run_rdkit(case):
                 break
             if o.check(isinstance(one, struc.AtomArray), "conformers_return_as_models", f"conformer_id={k}: {type(one).__name__}"):
                 o.check_array_eq(one.coord, coord[k], "conformers_return_as_models", f"from_mol(mol, conformer_id={k}).coord")
+
+        # --- documented: "2D" / "3D" select the conformers of that kind, the default returns all of them
+        # (which model is flagged as which kind is not documented: only the partition is checked;
+        # "no conformer of that kind" is documented to give one model of NaN)
+        if case["stack"]:
+            picked = []
+            for kind in ("2D", "3D"):
+                part = brd.from_mol(mol, conformer_id=kind, add_hydrogen=False)
+                if not o.check(isinstance(part, struc.AtomArrayStack), "conformers_return_as_models", f"conformer_id={kind!r}: {type(part).__name__}"):
+                    break
+                if part.stack_depth() == 1 and np.isnan(part.coord).all():
+                    o.label(f"no_{kind}_conformer")
+                    continue
+                o.label(f"has_{kind}_conformer")
+                picked.extend(part.coord)
+            else:
+                rows = sorted(np.asarray(c, dtype=np.float32).tobytes() for c in picked)
+                o.check(
+                    rows == sorted(coord[k].tobytes() for k in range(m)),
+                    "conformers_return_as_models",
+                    lambda: f"models selected by conformer_id='2D' and '3D' together: {len(picked)} of {m} models, or other coordinates",
+                )
     return o
 
 
@@ -1135,7 +1511,8 @@ def st_rdkit(tier):
         return st.one_of(st.just(""), st.text(NAME_ALPHABET, max_size=width), st.text(NAME_ALPHABET, min_size=width, max_size=width))
 
     atom = st.tuples(
-        st_element(),
+        # hydrogen only in biotite's spelling "H": whether "h" counts as a hydrogen atom is not stated
+        st_element().map(lambda e: "H" if e.upper() == "H" else e),
         st_charge(),
         s_str(6),
         s_str(5),
@@ -1154,36 +1531,48 @@ def st_rdkit(tier):
         st.lists(st.sampled_from(sorted(AROMATIC_TYPES)), min_size=6, max_size=6),
     )
 
+    # (strategy objects built once, see st_mol_small)
+    buckets = [(1, 3), (4, 8), (4, 8), (7, 14), (12, max_atoms)]
+    s_bucket = st.sampled_from(buckets)
+    s_atoms = {b: st.lists(atom, min_size=b[0], max_size=b[1]) for b in set(buckets)}
+    bond = st.tuples(st.integers(0, max_atoms - 1), st.integers(0, max_atoms - 1), st.sampled_from(generic_types)).map(list)
+    s_bonds = {(lo, size, mb): st.lists(bond, min_size=mb, max_size=2 * size) for lo, size in set(buckets) for mb in (0, min(lo, 6))}
+    s_rings = [st.lists(ring, max_size=k) for k in range(max_atoms // 6 + 1)]
+    s_bool = st.booleans()
+    s_models = st.sampled_from([1, 2, 2, 3, 4])
+    s_planar = {m: st.lists(st_rarely(5), min_size=m, max_size=m) for m in (1, 2, 3, 4)}
+    s_third = st.sampled_from([True, False, False])
+    s_seed = st.integers(0, 2**31 - 1)
+    s_rare4 = st_rarely(4)
+    s_quarter = st.sampled_from([False, False, False, True])
+    s_explicit = st.sampled_from([None, None, None, True, False])
+
     @st.composite
     def gen(draw):
-        lo, size = draw(st.sampled_from([(1, 3), (4, 8), (4, 8), (7, 14), (12, max_atoms)]))
-        atoms = draw(st.lists(atom, min_size=lo, max_size=size))
+        lo, size = draw(s_bucket)
+        atoms = draw(s_atoms[(lo, size)])
         n = len(atoms)
-        stack = draw(st.booleans())
-        m = draw(st.sampled_from([1, 2, 2, 3, 4])) if stack else 1
-        coords = draw(
-            st.lists(st.floats(width=32, allow_nan=False, allow_infinity=False), min_size=m * n * 3, max_size=m * n * 3)
-            if draw(st_rarely(4))
-            else st.lists(st.floats(-100, 100, width=32), min_size=m * n * 3, max_size=m * n * 3)
-        )
+        stack = draw(s_bool)
+        m = draw(s_models) if stack else 1
+        # coordinates from one seed (m * n * 3 single draws cost more than the whole conversion);
+        # models without z-extent are an explicit class
+        planar = draw(s_planar[m]) if draw(s_third) else []
         return {
             "atoms": atoms,
             "models": m,
             "stack": stack,
-            "coords": coords,
-            "bonds": draw(
-                st.lists(
-                    st.tuples(st.integers(0, size - 1), st.integers(0, size - 1), st.sampled_from(generic_types)).map(list),
-                    min_size=draw(st.sampled_from([0, min(lo, 6)])),
-                    max_size=2 * size,
-                )
-            ),
-            "rings": draw(st.lists(ring, max_size=n // 6)),
-            "use_dative": draw(st.booleans()),
-            "kekulize": draw(st.sampled_from([False, False, False, True])),
-            "has_charge": draw(st.sampled_from([True, True, True, False])),
-            "explicit_h": draw(st.sampled_from([None, None, None, True, False])),
-            "extras": draw(st.booleans()),
+            "coords": None,
+            "coord_seed": draw(s_seed),
+            "coord_mode": "wide" if draw(s_rare4) else "narrow",
+            "planar": planar,
+            # (bond indices are reduced modulo the number of atoms)
+            "bonds": draw(s_bonds[(lo, size, min(lo, 6) if draw(s_bool) else 0)]),
+            "rings": draw(s_rings[n // 6]),
+            "use_dative": draw(s_bool),
+            "kekulize": draw(s_quarter),
+            "has_charge": not draw(s_quarter),
+            "explicit_h": draw(s_explicit),
+            "extras": draw(s_bool),
         }
 
     return gen()
@@ -1198,8 +1587,9 @@ SUBS = [
         quick=2400,
         thorough=100000,
         rule=">= 3 bond types or a charge beyond +-3",
-        clauses="MOL V2000/V3000: elements, coordinates, charges, typed bonds, header; V2000 fixed columns; "
-        "values beyond the columns raise; atom block charge code; V3000 arbitrary atom indices",
+        clauses="MOL V2000/V3000: elements, coordinates, charges, typed bonds, header; V2000 fixed column positions, "
+        "charges recoverable from the text; values beyond the columns raise (any exception) or select V3000; "
+        "atom block charge codes read by the spec table; V3000 arbitrary atom indices",
     ),
     Sub(
         "mol_large",
@@ -1208,7 +1598,7 @@ SUBS = [
         quick=48,
         thorough=1600,
         rule=">= 1000 atoms or bonds (or within 100 of the limit with >= 3 bond types)",
-        clauses="count limit of V2000: automatic V3000 selection, ValueError for requested V2000, round trip of large tables",
+        clauses="count limit of V2000: automatic V3000 selection, an exception for requested V2000, round trip of large tables",
     ),
     Sub(
         "sdf_roundtrip",
@@ -1217,7 +1607,8 @@ SUBS = [
         quick=1200,
         thorough=50000,
         rule=">= 2 records or a key with a registry part or a multi-line value",
-        clauses="SDF: record names and order, header fields, metadata keys/values, molecule of every record",
+        clauses="SDF: record names and order, header fields, metadata keys/values (as a mapping), molecule of every "
+        "record; every documented form of the metadata argument; default record of get/set_structure",
     ),
     Sub(
         "rdkit_bridge",
@@ -1227,7 +1618,7 @@ SUBS = [
         thorough=80000,
         rule=">= 3 bond types, a charge beyond +-3 or a stack of >= 2 models",
         clauses="to_mol/from_mol: atom order, elements, charges, residue annotations, exact coordinates, "
-        "models <-> conformers, bond types (dative, aromatic, kekulize)",
+        "models <-> conformers (by ID, all, '2D' + '3D' partition), bond types (dative, aromatic, kekulize)",
     ),
 ]
 
@@ -1238,7 +1629,7 @@ ENUMS = [
         run_mol,
         rule="every case has >= 998 atoms",
         clauses="atoms in {998..1001} x bonds in {0, 998..1001} x version in {None, V2000, V3000}: "
-        "selection / ValueError / round trip",
+        "selection / refusal / round trip",
         exhaustive=True,
     )
 ]
